@@ -285,7 +285,7 @@ def extract(parser_file=None):
     funcs = {n.name: n for n in mod.body if isinstance(n, ast.FunctionDef)}
     if "parse" not in funcs:
         raise Unrecognised("no function parse")
-    info = {"caught_unpickle": None, "caught_integrity": None, "isolation": [], "sql": []}
+    info = {"caught_unpickle": None, "caught_integrity": None, "isolation": [], "sql": [], "recover": False}
 
     def has_sql(fn, seen=()):
         for node in ast.walk(fn):
@@ -370,6 +370,19 @@ def extract(parser_file=None):
                     raise Unrecognised("two file-removal handlers")
                 info["caught_integrity"] = names
             for h in st.handlers:
+                # the retry shape of fix C01-1: the handler forgets the earlier check of the database
+                # (`parse.initialized_dbs.discard(...)`) and returns a fresh call of parse(); the nested call is not
+                # inlined (handlers do not run in exception-free executions)
+                forgets = contains(h.body, lambda n: isinstance(n, ast.Call) and isinstance(n.func, ast.Attribute)
+                                   and n.func.attr in ("discard", "remove", "clear")
+                                   and "initialized_dbs" in ast.unparse(n.func.value))
+                retries = contains(h.body, lambda n: isinstance(n, ast.Return) and isinstance(n.value, ast.Call)
+                                   and isinstance(n.value.func, ast.Name) and n.value.func.id == "parse")
+                catches_db = any(x.split(".")[-1] in ("DatabaseError", "Error", "Exception", "BaseException")
+                                 for x in _handler_names(h))
+                if forgets and retries and catches_db and body != ["skip"]:
+                    info["recover"] = True
+                    continue
                 hb, _ = walk(h.body, guarded, depth)
                 if hb != ["skip"]:
                     raise Unrecognised("SQL inside an exception handler")
@@ -401,7 +414,8 @@ def extract(parser_file=None):
     if not info["isolation"]:
         raise Unrecognised("no sqlite3.connect call")
     return {"prog": prog, "caught_unpickle": info["caught_unpickle"], "caught_integrity": info["caught_integrity"] or [],
-            "isolation_none": all(i == "None" for i in info["isolation"]), "sql": info["sql"]}
+            "isolation_none": all(i == "None" for i in info["isolation"]), "sql": info["sql"],
+            "recover": info["recover"]}
 
 
 def prog_to_lean(p, ind=2):
@@ -436,7 +450,9 @@ def sqlProgram : Prog :=
 def caughtUnpickle : List String := %s
 def caughtIntegrity : List String := %s
 def isolationLevelNone : Bool := %s
+/-- `parse` re-validates a database it had initialised when its lookup raises a `DatabaseError` (fix C01-1) -/
+def recoversAfterDamage : Bool := %s
 
 end PymocaVerif.Generated.SqlProgram
 """ % (prog_to_lean(ex["prog"]), strs(ex["caught_unpickle"]), strs(ex["caught_integrity"]),
-       "true" if ex["isolation_none"] else "false"))
+       "true" if ex["isolation_none"] else "false", "true" if ex["recover"] else "false"))
